@@ -103,12 +103,16 @@ def sweep_case(job):
     try:
         import jax
         import onnxruntime as ort
-        dp = bool(tp.get("enable_double_precision", False))
-        spec = exports.tp_spec(tp)
+        dp = exports.tp_double(tp)
+        spec = exports.tp_spec(tp, dp)
         if spec is None or tp.get("input_params"):
             return {"key": key, "status": "skipped", "why": "no spec / input_params"}
-        if any(not all(isinstance(d, (int, np.integer)) for d in s.shape) for s in spec):
+        if any(isinstance(s, tuple) or not all(isinstance(d, (int, np.integer)) for d in s.shape) for s in spec):
             return {"key": key, "status": "skipped", "why": "symbolic dims (covered by C04)"}
+        if any(np.dtype(s.dtype).kind == "c" for s in spec):
+            return {"key": key, "status": "skipped", "why": "complex inputs (not feedable to ORT)"}
+        if ".random." in key or "random_" in key or "dropout" in key.lower():
+            return {"key": key, "status": "skipped", "why": "stochastic component"}
         fn = exports.tp_callable(tp, dp)
         rng = np.random.default_rng(seed + idx)
         feeds = [_inputs_for(tp, spec, rng, m) for m in modes]
@@ -123,7 +127,7 @@ def sweep_case(job):
         contract = _ContractProbe()
         try:
             with contract:
-                m = exports.export_tp(tp)
+                m = exports.export_tp(tp, _fn=fn)
         except Exception as e:  # noqa
             return {"key": key, "status": "export_error", "why": f"{type(e).__name__}: {str(e)[:120]}"}
         res["contract"] = contract.summary()
@@ -132,7 +136,11 @@ def sweep_case(job):
         try:
             sess = ort.InferenceSession(m.SerializeToString(), so, providers=["CPUExecutionProvider"])
         except Exception as e:  # noqa
-            return {"key": key, "status": "ort_load_error", "why": str(e)[:160]}
+            msg = str(e)
+            if any(t in msg for t in ("NOT_IMPLEMENTED", "ValidateOpsetForDomain", "is under development", "Could not find an implementation",
+                                      "opset 27", "only *guarantees* support")):
+                return {"key": key, "status": "skipped", "why": "onnxruntime lacks a kernel / opset for this model: " + msg[:100]}
+            return {"key": key, "status": "ort_load_error", "why": msg[:160]}
         names = [i.name for i in sess.get_inputs()]
         rtol = float(tp.get("rtol", tp.get("rtol_f64", 1e-3)) or 1e-3) if False else (1e-7 if dp else 2e-3)
         atol = 1e-9 if dp else 2e-4
